@@ -59,7 +59,8 @@ Fresh(c) ==
 
 NewOp(i) == [op |-> "new", i |-> i, kind |-> CfgOf[i].kind,
              per |-> <<CfgOf[i].n, CfgOf[i].n2, CfgOf[i].n3>>, m |-> CfgOf[i].m, seed |-> CfgOf[i].seed,
-             mem |-> Memory(CfgOf[i].kind, ParamsOf(CfgOf[i]))]
+             mem |-> Memory(CfgOf[i].kind, ParamsOf(CfgOf[i])),
+             dflt |-> CfgOf[i].dflt]        \* TRUE: constructed by Default::default(), which must behave as new(documented defaults)
 NoObs == [t |-> 0]
 
 RECURSIVE SeqOfSet(_)
